@@ -181,6 +181,10 @@ class CombinedDataHandler:
             .copy()
         )
         unexpected_units["unit_category"] = "unexpected"
+        # a unit that is listed without results has no counted votes yet: these units are only ever summed up,
+        # and one missing value would turn the totals of its state into NaN
+        results_columns = [col for col in unexpected_units.columns if col.startswith("results_")]
+        unexpected_units[results_columns] = unexpected_units[results_columns].fillna(0)
 
         # since we were not expecting them, we have don't have their county or district
         # from preprocessed data. so we have to add that back in.
